@@ -249,11 +249,28 @@ def run(prog: Program, rep, tier: str) -> None:
                 rep.fail("certain-crash-attribute", fi.qualname, _stmt_text(fi, n), f"VIOLATED: `{U(n)[:60]}`: no class in {sorted(t.name for t in ts)} defines `{n.func.attr}` (AttributeError when executed)", fi.loc(n))
     rep.pin("method calls on receivers of certain repo type", n_attr, 150)
     # loads of self.<attr> that no class of the hierarchy defines
-    referenced = set()  # method / property names that are used as an attribute somewhere
+    # (method name, class) pairs that are used as an attribute somewhere: `recv.name` refers to class C's method when recv may be a C
+    # (`self` inside C's hierarchy, a receiver whose inferred type is in C's hierarchy, or a receiver of unknown type)
+    ref_any: Set[str] = set()
+    ref_typed: Dict[str, Set[str]] = {}
     for f in prog.iter_functions():
         for n in own_nodes(f.node):
             if isinstance(n, ast.Attribute):
-                referenced.add(n.attr)
+                ts = None
+                if isinstance(n.value, ast.Name) and n.value.id == "self" and f.cls is not None:
+                    ts = {f.cls}
+                else:
+                    inferred = prog.infer_type(f, n.value)
+                    ts = set(inferred) if inferred else None
+                if ts is None:
+                    ref_any.add(n.attr)
+                else:
+                    for t in ts:
+                        for c in prog.mro(t) + prog.all_subclasses(t, include_self=False):
+                            ref_typed.setdefault(n.attr, set()).add(c.qualname)
+
+    def is_referenced(name: str, cls) -> bool:
+        return name in ref_any or (cls is not None and cls.qualname in ref_typed.get(name, set()))
     n_self = 0
     for fi in funcs:
         cls = fi.cls
@@ -270,7 +287,7 @@ def run(prog: Program, rep, tier: str) -> None:
                 n_self += 1
                 if n.attr in names or n.attr in sub_names or n.attr.startswith("__"):
                     continue
-                if fi.name not in referenced:
+                if not is_referenced(fi.name, cls):
                     rep.note(f"latent: {fi.loc(n)} `{U(n)}` is undefined, but {fi.short} is never referenced anywhere (dead code)")
                     continue
                 rep.fail("certain-crash-attribute", fi.qualname, _stmt_text(fi, n), f"VIOLATED: `{U(n)}`: no class in the hierarchy of {cls.name} defines `{n.attr}` (AttributeError when executed)", fi.loc(n))
